@@ -114,7 +114,9 @@ class DualQuaternion:
         """
         a = self.real * self.real.conj()
         b = self.real * self.dual.conj() + self.dual * self.real.conj()
-        return (base.sqrt(a.s), base.sqrt(b.s))
+        # sqrt of the dual number a + eps b is sqrt(a) + eps b / (2 sqrt(a))
+        ra = base.sqrt(a.s)
+        return (ra, b.s / (2 * ra) if ra != 0 else 0.0)
 
     def conj(self):
         r"""
